@@ -158,9 +158,14 @@ static void print_trace(void) {
   printf("\n");
 }
 
+static long afail_rel = -1; /* oracle afail k: the k-th allocation of the next operation fails */
+static long op_alloc_base;
+
 static void begin_op(void) {
   W.ncalls = 0;
   W.fault_hit = 0;
+  op_alloc_base = W.nallocs;
+  W.alloc_fail_at = afail_rel >= 0 ? W.nallocs + afail_rel : -1;
   if (log_on) {
     W.log = open_memstream(&logbuf, &logsize);
   }
@@ -171,7 +176,7 @@ static void end_op(const char *name, const char *result) {
   printf("op %s %s\n", name, result);
   print_trace();
   printf("calls %ld\n", W.ncalls);
-  printf("X fds %ld live %ld\n", W.open_fds, W.live_blocks);
+  printf("X fds %ld live %ld allocs %ld\n", W.open_fds, W.live_blocks, W.nallocs - op_alloc_base);
   if (W.log) {
     fclose(W.log);
     W.log = NULL;
@@ -185,6 +190,8 @@ static void end_op(const char *name, const char *result) {
   /* the oracle applies to one operation */
   W.crash_at = W.fail_at = W.short_at = W.shrink_at = -1;
   W.short_all = 0;
+  W.alloc_fail_at = -1;
+  afail_rel = -1;
   if (!ok(T)) {
     /* main() would report and stop; the driver clears the trace to go on */
     clear_trace(T);
@@ -276,7 +283,10 @@ int drv_world(void) {
       W.crash_at = W.fail_at = W.short_at = -1;
       W.short_all = 0;
       W.shrink_at = -1;
-      if (!strcmp(t[1], "shortall")) {
+      afail_rel = -1;
+      if (!strcmp(t[1], "afail")) {
+        afail_rel = atol(t[2]);
+      } else if (!strcmp(t[1], "shortall")) {
         W.short_all = strtoul(t[2], NULL, 10);
       } else if (!strcmp(t[1], "shrink")) {
         W.shrink_at = atol(t[2]);
@@ -411,7 +421,7 @@ int drv_world(void) {
     } else if (!strcmp(op, "dump")) {
       dump();
     } else if (!strcmp(op, "live")) {
-      printf("X fds %ld live %ld\n", W.open_fds, W.live_blocks);
+      printf("X fds %ld live %ld allocs %ld\n", W.open_fds, W.live_blocks, W.nallocs - op_alloc_base);
     } else {
       fprintf(stderr, "world: bad line %s\n", op);
       return 2;
